@@ -297,7 +297,7 @@ def check_monitor(ctx, R="C11.monitor"):
     else:
         ctx.finding(R, up, "PropositionMonitor.update", "PropositionMonitor.update no longer evaluates every atom exactly once and feeds the state to the rv_ltl monitor")
     st = model.func(DS, "DynamicScenario._step")
-    body = [s for s in st.body if not isinstance(s, (ast.Import, ast.ImportFrom)) and not (isinstance(s, ast.Expr) and isinstance(s.value, ast.Constant))]
+    body = [s for s in lib.core(st.body) if not isinstance(s, (ast.Import, ast.ImportFrom))]
     first = [s for s in body if not (isinstance(s, ast.Expr) and "super()._step()" in unparse(s))]
     good = False
     if first and isinstance(first[0], ast.For) and unparse(first[0].iter) == "self._requirementMonitors":
